@@ -1,4 +1,5 @@
 import Secp.Proofs.Schnorr
+import Secp.Props.C03
 /-
   Props/C11 — EC-Schnorr-DCRv0 signing and verification follow the published scheme.
   Model: `Secp.Model.schnorrSignM`, `schnorrSign`, `schnorrVerifyM`, `schnorrParse`,
@@ -45,5 +46,14 @@ theorem parse_serialize (r s : Nat) (hr : r < P) (hs : s < N) : schnorrParse (sc
 
 theorem serialize_parse (b : Bytes) (r s : Nat) (h : schnorrParse b = .ok (r, s)) : schnorrSerialize r s = b :=
   Secp.Proofs.Schnorr.serialize_parse b r s h
+
+/-! ### unconditional forms -/
+
+theorem verify_iff_unconditional (B : Bytes → Bytes) (hB : ∀ x, (B x).length = 32)
+    (r s : Nat) (m : Bytes) (x y : Nat) (hr : r < P) (hs : s < N) (hx : x < P) (hy : y < P) :
+    schnorrVerifyM B r s m (x, y) = none ↔
+      (m.length = 32 ∧ OnCurve x y ∧ challenge B r m < N ∧
+        ∃ rx ry, Pt.add (smul s G) (smul (challenge B r m) (some (x, y))) = some (rx, ry) ∧ ry % 2 = 0 ∧ rx = r) :=
+  verify_iff Secp.Props.C03.pointSpec B hB r s m x y hr hs hx hy
 
 end Secp.Props.C11
